@@ -88,6 +88,7 @@ func (c *ClusterInfo) snapshotQueueResourceUsage() (*queue_info.ClusterUsage, er
 // UpdateQueueHierarchy iterates over a map containing multiple levels of queue hierarchies, and updates queues with
 // child queues where relevant
 func UpdateQueueHierarchy(queues map[common_info.QueueID]*queue_info.QueueInfo) {
+	cleanQueueCycles(queues)
 	updateQueueChildren(queues)
 	cleanQueueOrphans(queues)
 }
@@ -99,6 +100,31 @@ func updateQueueChildren(queues map[common_info.QueueID]*queue_info.QueueInfo) {
 				parent.AddChildQueue(queueId)
 			}
 		}
+	}
+}
+
+// cleanQueueCycles deletes every queue whose parent chain never ends: the members of a parent cycle (a queue that is
+// its own parent included) and everything below them. Nothing can be scheduled in such queues, and every walk up the
+// hierarchy from them would loop forever.
+func cleanQueueCycles(queues map[common_info.QueueID]*queue_info.QueueInfo) {
+	var cyclic []common_info.QueueID
+	for queueId := range queues {
+		current := queueId
+		for steps := 0; ; steps++ {
+			queue, found := queues[current]
+			if !found || queue.ParentQueue == "" {
+				break
+			}
+			if steps >= len(queues) {
+				cyclic = append(cyclic, queueId)
+				break
+			}
+			current = queue.ParentQueue
+		}
+	}
+	for _, queueId := range cyclic {
+		log.InfraLogger.V(2).Warnf("Found queue %s whose parent chain is cyclic, deleting it", queueId)
+		delete(queues, queueId)
 	}
 }
 
